@@ -58,7 +58,10 @@ Print Assumptions c14_abnormal_codes.
    added to the log BEFORE the log file is written, the log file is written when a log path
    was given, the JSON (when requested) has exactly the keys the finally block adds
    (config, log, metadata [, gene_identifier_mapping]) and no `results`, the HDF5 (when
-   requested) holds the metadata only — and no CSV is written. *)
+   requested) holds the metadata only, the result buffer directory made at the top of `try`
+   is removed in the `finally` block (buffer_cleaned_trace: after the failing step and the
+   traceback, before the tmp directory is removed and before the log file / JSON / HDF5 are
+   written) — and no CSV is written. *)
 Theorem c14_mapping_effects : forall (c : cfg) (W : world) (n k : nat),
   (1 <= n)%nat -> (exists w, (w < k)%nat /\ code W w <> 0%Z) ->
   let fail := assign_fail (stage_result false W n k) in
@@ -86,6 +89,28 @@ Theorem c14_any_inner_failure : forall c fail,
   snd (inner c fail) = None -> failed_run_ok c fail = true.
 Proof. exact inner_raised_checked. Qed.
 Print Assumptions c14_any_inner_failure.
+
+(* the result buffer directory (named result_buffer_XXXXXXXX) is removed on EVERY path of run_mapping:
+   for every configuration and wherever the run fails (or does not), the trace holds
+   MkResultBuf and, later, CleanResultBuf; after a failure the removal comes after the
+   failing step and after the traceback was added to the log and before the re-raise; it
+   comes before the removal of the tmp directory and before each of the log file, the JSON
+   and the HDF5 output is written (when requested).  (Before the repair of finding F9 the
+   removal was the last step of the success path only.) *)
+Theorem c14_result_buffer_removed_on_every_path : forall c fail,
+  let tr := fst (run_mapping c fail) in
+  has_eff 3 tr = true /\ has_eff 10 tr = true /\ before 3 10 tr = true /\
+  (snd (run_mapping c fail) = true -> before 12 10 tr = true /\ before 13 10 tr = true /\ before 10 19 tr = true) /\
+  (has_tmp c = true -> before 10 14 tr = true) /\
+  (has_log_path c = true -> before 10 16 tr = true) /\
+  (has_json c = true -> before 10 17 tr = true) /\
+  (has_hdf5 c = true -> before 10 18 tr = true).
+Proof. exact buffer_cleaned_unfold. Qed.
+Print Assumptions c14_result_buffer_removed_on_every_path.
+
+Theorem c14_result_buffer_cleaned : forall c fail, buffer_cleaned c fail = true.
+Proof. exact buffer_cleaned_checked. Qed.
+Print Assumptions c14_result_buffer_cleaned.
 
 (* the other stages (and the assignment stage itself): for each of the six stage
    descriptions, whatever the worlds of its pools, a failing worker in ANY phase means the
@@ -141,9 +166,9 @@ Proof. vm_compute. reflexivity. Qed.
 Example c14_example_mapping :
   let c := {| has_tmp := true; has_csv := true; has_obsm := false; has_summary := false; has_log_path := true;
               has_json := true; has_hdf5 := true; has_gene_map := false |} in
-  map eff_tag (fst (run_mapping c (Some PAssign))) = [1; 2; 3; 4; 5; 12; 13; 14; 15; 16; 17; 18; 19]%Z /\
+  map eff_tag (fst (run_mapping c (Some PAssign))) = [1; 2; 3; 4; 5; 12; 13; 10; 14; 15; 16; 17; 18; 19]%Z /\
   json_keys (fst (run_mapping c (Some PAssign))) = Some [KConfig; KLog; KMetadata] /\
-  map eff_tag (fst (run_mapping c None)) = [1; 2; 3; 4; 5; 6; 7; 10; 11; 14; 15; 16; 17; 18]%Z /\
+  map eff_tag (fst (run_mapping c None)) = [1; 2; 3; 4; 5; 6; 7; 11; 10; 14; 15; 16; 17; 18]%Z /\
   clean_run_ok c = true.
 Proof. vm_compute. repeat split; reflexivity. Qed.
 
